@@ -736,3 +736,7 @@ def run(ctx):
     # the busy state and the queue are per direction: the two directions of a connection get distinct channel instances
     from .C08 import r1_cross_wiring
     r1_cross_wiring(ctx, rule='C07.R9')
+    # (R10) with zero jitter deliveries preserve offer order: what a handler sends leaves the event buffer in emission order (shared
+    # with C03.R3)
+    from .C03 import r3_emission_order
+    r3_emission_order(ctx, rule='C07.R10')
